@@ -249,11 +249,11 @@ PROP = Prop(
           "Non-trivial = >=5 replicates (built-in); a support point with rate exactly 0/1 and one "
           "strictly inside (identity); every case (experimental)."),
     clauses=[
-        Clause("roc_with_ci", check_real, strategy=_real_cases(), quick=80, thorough=400,
+        Clause("roc_with_ci", check_real, strategy=_real_cases(), quick=80, thorough=3200,
                quick_shards=4, min_nontrivial=50, doc="well-formed bands, built-in samplers"),
-        Clause("closed_form", check_identity, strategy=_ident_cases(), quick=150, thorough=700,
+        Clause("closed_form", check_identity, strategy=_ident_cases(), quick=150, thorough=5600,
                quick_shards=4, min_nontrivial=80, doc="identity sampler: envelope closed form"),
-        Clause("experimental", check_experimental, strategy=_exp_cases(), quick=100, thorough=500,
+        Clause("experimental", check_experimental, strategy=_exp_cases(), quick=100, thorough=4000,
                quick_shards=4, min_nontrivial=80, doc="the three experimental band functions"),
     ],
     predicates={"fwb_unbalanced": _fwb_unbalanced, "fwb_two_point_curve": _fwb_two_point_curve},
